@@ -121,4 +121,13 @@ def rule_raw_rows_dispatch(ctx):
 
 from .common import rule_module_state  # noqa: E402
 
-RULES = [rule_validate_row, rule_cursor, rule_location_copies, rule_raw_rows_dispatch, rule_module_state]
+def rule_ods_rows_keep_their_cells(ctx):
+    """O4.5: the item count that is checked is the sheet's: the ODS reader keeps empty rows and (runs of) empty cells at the
+    end of a row (C15's table)."""
+    from .c15 import rule_empty_rows
+
+    ctx.res.minimum("O4.5", 1)
+    rule_empty_rows(ctx, "O4.5")
+
+
+RULES = [rule_validate_row, rule_cursor, rule_location_copies, rule_raw_rows_dispatch, rule_ods_rows_keep_their_cells, rule_module_state]
